@@ -398,6 +398,9 @@ pub struct Environment<E: Effect> {
     // Effect backend and resource management
     effect_backend: Option<Box<dyn EffectBackend<E = E>>>,
     resource_ownership: HashMap<ResourceId, ProcessId>,
+    // Processes started through `start_process`: they are persistent, so a successful result
+    // means "sleeping until resumed", not "terminated".
+    persistent_processes: HashSet<ProcessId>,
 }
 
 impl<E: Effect> Environment<E> {
@@ -415,6 +418,7 @@ impl<E: Effect> Environment<E> {
             next_process_id: 0,
             effect_backend: None,
             resource_ownership: HashMap::new(),
+            persistent_processes: HashSet::new(),
         }
     }
 
@@ -488,6 +492,7 @@ impl<E: Effect> Environment<E> {
         let worker_id = pid % self.workers.len(); // Round-robin
 
         self.process_router.insert(pid, worker_id);
+        self.persistent_processes.insert(pid);
         self.workers[worker_id]
             .send(Command::StartProcess {
                 id: pid,
@@ -1108,7 +1113,11 @@ impl<E: Effect> Environment<E> {
     ) -> Result<(), EnvironmentError> {
         // Clean up resources for any completed processes
         for (process_id, result) in &results {
-            if result.is_some() {
+            // A persistent process reporting a value is only sleeping between two resumptions: it
+            // is still alive and keeps its resources. (A failed one can never be resumed.)
+            let sleeping = self.persistent_processes.contains(process_id)
+                && matches!(result, Some(Ok(_)));
+            if result.is_some() && !sleeping {
                 // Process has completed (success or failure) - clean up its resources
                 self.cleanup_process_resources(*process_id);
             }
